@@ -37,6 +37,13 @@ def nf_for(lm: ListenerModel, r: Row) -> NF:
     return NF(ctx, None, r.outcome.state)
 
 
+class _F(dict):
+    """Field map that yields a marker for fields the created class does not have."""
+
+    def __missing__(self, key):
+        return ("unknown", f"no field {key}")
+
+
 def entry_objects(lm: ListenerModel, r: Row) -> List[Tuple[str, Dict[str, Any]]]:
     """(class, fields) of every entry/member object created and stored on the row."""
     out = []
@@ -45,7 +52,7 @@ def entry_objects(lm: ListenerModel, r: Row) -> List[Tuple[str, Dict[str, Any]]]
         if e[0] == "push" and (e[1] == lm.entries or (e[1][0] == "attr" and e[1][1] == ("top", lm.clsstack))):
             ob = st.obj(e[2])
             if ob is not None and ob.get("kind") == "new":
-                out.append((ob["cls"], ob["fields"]))
+                out.append((ob["cls"], _F(ob["fields"])))
     return out
 
 
